@@ -216,9 +216,28 @@ fn check(id: &str, tier: Tier) -> i32 {
                 }
             },
             Some(s) => {
-                // Abnormal worker exit (abort, stack overflow, OOM kill): not attributable to an input here.
-                eprintln!("worker {w} exited abnormally: {s}");
-                infra = true;
+                // Abnormal worker exit (abort, stack overflow, allocation failure): re-run that worker in trace mode to
+                // recover the input that kills it. Reproducible => violation; not reproducible => inconclusive.
+                eprintln!("worker {w} exited abnormally: {s}; re-running in trace mode");
+                let trace = tmp.join(format!("trace{w}.json"));
+                let again = Command::new(&exe)
+                    .args(["worker", id, tier.name(), &seed.to_string(), &w.to_string(), &n.to_string(), out.to_str().unwrap()])
+                    .env("VH_TRACE", &trace)
+                    .stdin(Stdio::null())
+                    .status();
+                match (again, std::fs::read(&trace).ok().and_then(|b| serde_json::from_slice::<Value>(&b).ok())) {
+                    (Ok(st), Some(v)) if !st.success() => {
+                        failures.push((
+                            0,
+                            Failure {
+                                unit: v["unit"].as_str().unwrap_or("").to_string(),
+                                case: v["case"].clone(),
+                                fail: Fail::new(&format!("{id}.abort"), format!("the process died ({st}) while executing this case")),
+                            },
+                        ));
+                    }
+                    _ => infra = true,
+                }
             }
             None => {
                 eprintln!("worker {w}: watchdog expired");
